@@ -6,6 +6,7 @@
   STATEMENTS in this header section; the proofs follow.
 -/
 import PrologVerif.Model.Decompile
+import PrologVerif.Proofs.DecompileLemmas
 namespace PrologVerif.DecompileCompile
 open PrologVerif PrologVerif.VM
 
@@ -70,5 +71,629 @@ def ErrorStatement : Prop :=
   ∀ (head body : Rep), WF head = true → WF body = true → CallableHead head = true →
     ((∃ e, compile (.compound ":-" (.cons head (.cons body .nil))) = .error e) ↔
       ∃ alt ∈ altBodies body, ∃ g ∈ seqGoals alt, CallableGoal g = false)
+
+/-! # Proofs -/
+
+@[simp] theorem emit_code (c : CState) (o : Op) : (emit c o).code = c.code ++ [o] := rfl
+@[simp] theorem emit_vars (c : CState) (o : Op) : (emit c o).vars = c.vars := rfl
+
+theorem absArgs_toList_length : ∀ rs : RepList, (Rep.absArgs rs).toList.length = rs.length
+  | .nil => rfl
+  | .cons _ rs => by simp [Rep.absArgs, Args.toList, RepList.length, absArgs_toList_length rs]
+
+theorem absArgs_len : ∀ rs : RepList, (Rep.absArgs rs).length = rs.length
+  | .nil => rfl
+  | .cons _ rs => by simp [Rep.absArgs, Args.length, RepList.length, absArgs_len rs]
+
+theorem list_absArgs (t : Term) : ∀ rs : RepList,
+    Term.list (Rep.absArgs rs).toList t = Rep.graft (Rep.absList rs) t
+  | .nil => by simp [Rep.absArgs, Args.toList, Term.list, Rep.absList, Rep.graft]
+  | .cons r rs => by
+    have := list_absArgs t rs
+    simp only [Term.list] at this
+    simp [Rep.absArgs, Args.toList, Term.list, Rep.absList, Rep.graft, Term.consT, this]
+
+theorem list_absArgs_nil : ∀ rs : RepList, Term.list (Rep.absArgs rs).toList = Rep.absList rs
+  | .nil => by simp [Rep.absArgs, Args.toList, Term.list, Rep.absList, Term.nilT]
+  | .cons r rs => by
+    have := list_absArgs_nil rs
+    simp only [Term.list] at this
+    simp [Rep.absArgs, Args.toList, Term.list, Rep.absList, Term.consT, this]
+
+theorem graft_list (t : Term) : ∀ l : List Term, Rep.graft (Term.list l) t = Term.list l t
+  | [] => by simp [Term.list, Term.nilT, Rep.graft]
+  | x :: l => by
+    have := graft_list t l
+    simp only [Term.list] at this
+    simp [Term.list, Term.consT, Rep.graft, this]
+
+theorem foldl_emit (f : Term → Op) : ∀ (ts : List Term) (c : CState),
+    (ts.foldl (fun c t => emit c (f t)) c).code = c.code ++ ts.map f ∧
+    (ts.foldl (fun c t => emit c (f t)) c).vars = c.vars
+  | [], c => by simp
+  | t :: ts, c => by
+    have := foldl_emit f ts (emit c (f t))
+    simp [this]
+
+mutual
+  theorem compileArg_spec (hd : Bool) : ∀ (r : Rep) (c : CState), WF r = true →
+      ∃ o ops, (compileArg hd r c).code = c.code ++ o :: ops ∧ isArgOp hd o = true ∧
+        c.vars <+: (compileArg hd r c).vars ∧
+        Reads hd (compileArg hd r c).vars (o :: ops) [Rep.abs r]
+    | .var v, c, _ => by
+      obtain ⟨i, c', h, hc, hp, hv⟩ := varOffset_spec c v
+      refine ⟨opVar hd i, [], ?_, isArgOp_var _ _, ?_, ?_⟩
+      · simp [compileArg, h, hc]
+      · simpa [compileArg, h] using hp
+      · simpa [compileArg, h, Rep.abs] using Reads_var hd c'.vars i v hv
+    | .atom s, c, _ =>
+      ⟨opConst hd (.atom s), [], by simp [compileArg], isArgOp_const _ _, by simp [compileArg],
+        by simpa [compileArg, Rep.abs] using Reads_const hd c.vars (.atom s)⟩
+    | .int i, c, _ =>
+      ⟨opConst hd (.int i), [], by simp [compileArg], isArgOp_const _ _, by simp [compileArg],
+        by simpa [compileArg, Rep.abs] using Reads_const hd c.vars (.int i)⟩
+    | .flt b, c, _ =>
+      ⟨opConst hd (.flt b), [], by simp [compileArg], isArgOp_const _ _, by simp [compileArg],
+        by simpa [compileArg, Rep.abs] using Reads_const hd c.vars (.flt b)⟩
+    | .str n, c, _ =>
+      ⟨opConst hd (.str n), [], by simp [compileArg], isArgOp_const _ _, by simp [compileArg],
+        by simpa [compileArg, Rep.abs] using Reads_const hd c.vars (.str n)⟩
+    | .charList s, c, _ =>
+      ⟨opConst hd (Rep.abs (.charList s)), [], by simp [compileArg], isArgOp_const _ _,
+        by simp [compileArg], by simpa [compileArg] using Reads_const hd c.vars (Rep.abs (.charList s))⟩
+    | .codeList s, c, _ =>
+      ⟨opConst hd (Rep.abs (.codeList s)), [], by simp [compileArg], isArgOp_const _ _,
+        by simp [compileArg], by simpa [compileArg] using Reads_const hd c.vars (Rep.abs (.codeList s))⟩
+    | .compound f args, c, h => by
+      simp only [WF, Bool.and_eq_true] at h
+      obtain ⟨ops, hcode, hp, hr⟩ := compileArgs_spec hd args (emit c (opFunctor hd f args.length)) h.2
+      refine ⟨opFunctor hd f args.length, ops ++ [.pop], ?_, isArgOp_functor _ _ _, ?_, ?_⟩
+      · simp [compileArg, hcode]
+      · simpa [compileArg] using hp
+      · have := Reads_functor hd _ f ops _ hr
+        simpa [compileArg, Rep.abs, absArgs_toList_length, absArgs_len] using this
+    | .list elems, c, h => by
+      simp only [WF, Bool.and_eq_true] at h
+      obtain ⟨ops, hcode, hp, hr⟩ := compileArgs_spec hd elems (emit c (opList hd elems.length)) h.2
+      refine ⟨opList hd elems.length, ops ++ [.pop], ?_, isArgOp_list _ _, ?_, ?_⟩
+      · simp [compileArg, hcode]
+      · simpa [compileArg] using hp
+      · have := Reads_list hd _ ops _ hr
+        simpa [compileArg, Rep.abs, absArgs_toList_length, absArgs_len, list_absArgs_nil] using this
+    | .part pre tail, c, h => by
+      cases pre with
+      | list elems =>
+        simp only [WF, Bool.and_eq_true] at h
+        obtain ⟨o1, ops1, hcode1, _, hp1, hr1⟩ :=
+          compileArg_spec hd tail (emit c (opPartial hd elems.length)) h.2
+        obtain ⟨ops2, hcode2, hp2, hr2⟩ :=
+          compileArgs_spec hd elems (compileArg hd tail (emit c (opPartial hd elems.length))) h.1.2
+        refine ⟨opPartial hd elems.length, (o1 :: ops1 ++ ops2) ++ [.pop], ?_, isArgOp_partial _ _, ?_, ?_⟩
+        · simp [compileArg, hcode1, hcode2]
+        · simpa [compileArg] using List.IsPrefix.trans hp1 hp2
+        · have := Reads_partial hd _ _ (Rep.abs tail) _ (Reads_append (Reads_mono hr1 hp2) hr2)
+          simpa [compileArg, Rep.abs, absArgs_toList_length, absArgs_len, list_absArgs] using this
+      | charList s =>
+        simp only [WF, Bool.and_eq_true] at h
+        obtain ⟨o1, ops1, hcode1, _, hp1, hr1⟩ :=
+          compileArg_spec hd tail (emit c (opPartial hd s.length)) h.2
+        obtain ⟨hf1, hf2⟩ := foldl_emit (opConst hd) (charConsts s)
+          (compileArg hd tail (emit c (opPartial hd s.length)))
+        refine ⟨opPartial hd s.length, (o1 :: ops1 ++ (charConsts s).map (opConst hd)) ++ [.pop], ?_,
+          isArgOp_partial _ _, ?_, ?_⟩
+        · simp [compileArg, hcode1, hf1]
+        · simpa [compileArg, hf2] using hp1
+        · have := Reads_partial hd _ _ (Rep.abs tail) _ (Reads_append hr1 (Reads_consts hd _ (charConsts s)))
+          have e : Rep.abs (.part (.charList s) tail) = Term.list (charConsts s) (Rep.abs tail) := by
+            simp [Rep.abs, charConsts, graft_list]
+          have el : (charConsts s).length = s.length := by simp [charConsts]
+          have el' : (codeConsts s).length = s.length := by simp [codeConsts]
+          rw [e]
+          simpa [compileArg, hf2, el, el'] using this
+      | codeList s =>
+        simp only [WF, Bool.and_eq_true] at h
+        obtain ⟨o1, ops1, hcode1, _, hp1, hr1⟩ :=
+          compileArg_spec hd tail (emit c (opPartial hd s.length)) h.2
+        obtain ⟨hf1, hf2⟩ := foldl_emit (opConst hd) (codeConsts s)
+          (compileArg hd tail (emit c (opPartial hd s.length)))
+        refine ⟨opPartial hd s.length, (o1 :: ops1 ++ (codeConsts s).map (opConst hd)) ++ [.pop], ?_,
+          isArgOp_partial _ _, ?_, ?_⟩
+        · simp [compileArg, hcode1, hf1]
+        · simpa [compileArg, hf2] using hp1
+        · have := Reads_partial hd _ _ (Rep.abs tail) _ (Reads_append hr1 (Reads_consts hd _ (codeConsts s)))
+          have e : Rep.abs (.part (.codeList s) tail) = Term.list (codeConsts s) (Rep.abs tail) := by
+            simp [Rep.abs, codeConsts, graft_list]
+          have el : (charConsts s).length = s.length := by simp [charConsts]
+          have el' : (codeConsts s).length = s.length := by simp [codeConsts]
+          rw [e]
+          simpa [compileArg, hf2, el, el'] using this
+      | _ => simp [WF] at h
+  theorem compileArgs_spec (hd : Bool) : ∀ (rs : RepList) (c : CState), WFs rs = true →
+      ∃ ops, (compileArgs hd rs c).code = c.code ++ ops ∧ c.vars <+: (compileArgs hd rs c).vars ∧
+        Reads hd (compileArgs hd rs c).vars ops (Rep.absArgs rs).toList
+    | .nil, c, _ => ⟨[], by simp [compileArgs], by simp [compileArgs],
+        by simpa [compileArgs, Rep.absArgs, Args.toList] using Reads_nil hd c.vars⟩
+    | .cons r rs, c, h => by
+      simp only [WFs, Bool.and_eq_true] at h
+      obtain ⟨o1, ops1, hcode1, _, hp1, hr1⟩ := compileArg_spec hd r c h.1
+      obtain ⟨ops2, hcode2, hp2, hr2⟩ := compileArgs_spec hd rs (compileArg hd r c) h.2
+      refine ⟨o1 :: ops1 ++ ops2, ?_, ?_, ?_⟩
+      · simp [compileArgs, hcode1, hcode2]
+      · simpa [compileArgs] using List.IsPrefix.trans hp1 hp2
+      · have := Reads_append (Reads_mono hr1 hp2) hr2
+        simpa [compileArgs, Rep.absArgs, Args.toList] using this
+end
+
+/-! ## list cells seen through the `Compound` interface -/
+
+/-- list cells other than `*partial` -/
+def simpleCell : Rep → Bool
+  | .list elems => elems.length ≥ 1 && WFs elems
+  | .charList s => !s.isEmpty
+  | .codeList s => !s.isEmpty
+  | _ => false
+
+def isCell : Rep → Bool
+  | .list _ | .charList _ | .codeList _ | .part _ _ => true
+  | _ => false
+
+theorem simpleCell_args : ∀ g : Rep, simpleCell g = true →
+    ∃ h t, Rep.arg g 0 = some h ∧ Rep.arg g 1 = some t ∧ WF h = true ∧
+      Rep.abs g = .app "." (.cons (Rep.abs h) (.cons (Rep.abs t) .nil)) ∧
+      Rep.functor g = some "." ∧ Rep.arity g = 2 ∧ (t = .atom "[]" ∨ simpleCell t = true)
+  | .list .nil, h => by simp [simpleCell, RepList.length] at h
+  | .list (.cons a .nil), h => by
+    simp [simpleCell, WFs, RepList.length] at h
+    exact ⟨a, .atom "[]", rfl, rfl, h, by simp [Rep.abs, Rep.absList], rfl, rfl, Or.inl rfl⟩
+  | .list (.cons a (.cons b bs)), h => by
+    simp [simpleCell, WFs, RepList.length] at h
+    exact ⟨a, .list (.cons b bs), rfl, rfl, h.1, by simp [Rep.abs, Rep.absList], rfl, rfl,
+      Or.inr (by simp [simpleCell, WFs, RepList.length, h.2])⟩
+  | .charList [], h => by simp [simpleCell] at h
+  | .charList [a], _ =>
+    ⟨Rep.charAtom a, .atom "[]", rfl, rfl, rfl,
+      by simp [Rep.abs, Rep.charAtom, Term.list, Term.consT, Term.nilT], rfl, rfl, Or.inl rfl⟩
+  | .charList (a :: b :: bs), _ =>
+    ⟨Rep.charAtom a, .charList (b :: bs), rfl, rfl, rfl,
+      by simp [Rep.abs, Rep.charAtom, Term.list, Term.consT, Term.nilT], rfl, rfl, Or.inr rfl⟩
+  | .codeList [], h => by simp [simpleCell] at h
+  | .codeList [a], _ =>
+    ⟨Rep.charCode a, .atom "[]", rfl, rfl, rfl,
+      by simp [Rep.abs, Rep.charCode, Term.list, Term.consT, Term.nilT], rfl, rfl, Or.inl rfl⟩
+  | .codeList (a :: b :: bs), _ =>
+    ⟨Rep.charCode a, .codeList (b :: bs), rfl, rfl, rfl,
+      by simp [Rep.abs, Rep.charCode, Term.list, Term.consT, Term.nilT], rfl, rfl, Or.inr rfl⟩
+  | .var _, h | .atom _, h | .int _, h | .flt _, h | .str _, h | .compound _ _, h | .part _ _, h => by
+    simp [simpleCell] at h
+
+theorem simpleCell_props : ∀ t : Rep, simpleCell t = true →
+    WF t = true ∧ t ≠ .atom "[]" ∧ (Rep.functor t).isSome = true ∧
+      ∀ tail, WF tail = true → WF (.part t tail) = true
+  | .list es, h => ⟨by simpa [simpleCell, WF] using h, by simp, rfl,
+      fun tail ht => by simp [simpleCell] at h; simp [WF, h, ht]⟩
+  | .charList s, h => ⟨by simpa [simpleCell, WF] using h, by simp, rfl,
+      fun tail ht => by simp [simpleCell] at h; simp [WF, h, ht]⟩
+  | .codeList s, h => ⟨by simpa [simpleCell, WF] using h, by simp, rfl,
+      fun tail ht => by simp [simpleCell] at h; simp [WF, h, ht]⟩
+  | .var _, h | .atom _, h | .int _, h | .flt _, h | .str _, h | .compound _ _, h | .part _ _, h => by
+    simp [simpleCell] at h
+
+theorem WF_part {pre tail : Rep} (h : WF (.part pre tail) = true) :
+    simpleCell pre = true ∧ WF tail = true := by
+  cases pre <;> simp [WF, simpleCell] at h ⊢ <;> exact h
+
+theorem cell_args (g : Rep) (hw : WF g = true) (hc : isCell g = true) :
+    ∃ h t, Rep.arg g 0 = some h ∧ Rep.arg g 1 = some t ∧ WF h = true ∧ WF t = true ∧
+      Rep.abs g = .app "." (.cons (Rep.abs h) (.cons (Rep.abs t) .nil)) := by
+  have simple : ∀ g, simpleCell g = true → ∃ h t, Rep.arg g 0 = some h ∧ Rep.arg g 1 = some t ∧
+      WF h = true ∧ WF t = true ∧
+      Rep.abs g = .app "." (.cons (Rep.abs h) (.cons (Rep.abs t) .nil)) := by
+    intro g hs
+    obtain ⟨h, t, h0, h1, hwh, habs, _, _, ht⟩ := simpleCell_args g hs
+    refine ⟨h, t, h0, h1, hwh, ?_, habs⟩
+    rcases ht with rfl | ht
+    · rfl
+    · exact (simpleCell_props t ht).1
+  cases g with
+  | list es => exact simple _ (by simpa [simpleCell, WF] using hw)
+  | charList s => exact simple _ (by simpa [simpleCell, WF] using hw)
+  | codeList s => exact simple _ (by simpa [simpleCell, WF] using hw)
+  | part pre tail =>
+    obtain ⟨hs, hwt⟩ := WF_part hw
+    obtain ⟨h, t, h0, h1, hwh, habs, hf, ha, ht⟩ := simpleCell_args pre hs
+    rcases ht with rfl | ht
+    · exact ⟨h, tail, by simp [Rep.arg, h0, hf, ha], by simp [Rep.arg, h1, hf, ha], hwh, hwt,
+        by simp [Rep.abs, habs, Rep.graft]⟩
+    · obtain ⟨_, hne, hfs, hwp⟩ := simpleCell_props t ht
+      exact ⟨h, .part t tail, by simp [Rep.arg, h0, hf, ha], by simp [Rep.arg, h1, hf, ha, hne, hfs],
+        hwh, hwp tail hwt, by simp [Rep.abs, habs, Rep.graft]⟩
+  | _ => simp [isCell] at hc
+
+theorem compilePred_cell {g h t : Rep} (c : CState) (hc : isCell g = true)
+    (h0 : Rep.arg g 0 = some h) (h1 : Rep.arg g 1 = some t) :
+    compilePred g c = some (emit (compileBodyArg t (compileBodyArg h c)) (.call "." 2)) := by
+  cases g <;> simp [isCell] at hc <;> simp [compilePred, h0, h1]
+
+/-! ## goals -/
+
+theorem compileArgs_put : ∀ (rs : RepList) (c : CState), WFs rs = true →
+    ∃ ops, (compileArgs false rs c).code = c.code ++ ops ∧ c.vars <+: (compileArgs false rs c).vars ∧
+      PutReads (compileArgs false rs c).vars ops (Rep.absArgs rs).toList ∧
+      (rs ≠ .nil → ∃ o ops', ops = o :: ops' ∧ isPut o = true)
+  | .nil, c, _ => ⟨[], by simp [compileArgs], by simp [compileArgs],
+      by simpa [compileArgs, Rep.absArgs, Args.toList] using PutReads_nil c.vars, fun h => (h rfl).elim⟩
+  | .cons r rs, c, h => by
+    simp only [WFs, Bool.and_eq_true] at h
+    obtain ⟨o1, ops1, hcode1, ho1, hp1, hr1⟩ := compileArg_spec false r c h.1
+    obtain ⟨ops2, hcode2, hp2, hr2, _⟩ := compileArgs_put rs (compileArg false r c) h.2
+    refine ⟨o1 :: ops1 ++ ops2, ?_, ?_, ?_, fun _ => ⟨o1, ops1 ++ ops2, rfl, isArgOp_false ho1⟩⟩
+    · simp [compileArgs, hcode1, hcode2]
+    · simpa [compileArgs] using List.IsPrefix.trans hp1 hp2
+    · have := PutReads_append (PutReads_mono (PutReads_of_Reads hr1 (isArgOp_false ho1)) hp2) hr2
+      simpa [compileArgs, Rep.absArgs, Args.toList] using this
+
+/-- a goal with at least one argument: its put-code followed by `call` -/
+theorem call_spec (f : String) (rs : RepList) (c : CState) (hw : WFs rs = true) (hne : rs ≠ .nil) :
+    ∃ ops, (emit (compileArgs false rs c) (.call f rs.length)).code = c.code ++ ops ∧
+      c.vars <+: (emit (compileArgs false rs c) (.call f rs.length)).vars ∧
+      GoalReads (emit (compileArgs false rs c) (.call f rs.length)).vars ops [.app f (Rep.absArgs rs)] := by
+  obtain ⟨ops, hcode, hp, hr, hs⟩ := compileArgs_put rs c hw
+  obtain ⟨o, ops', rfl, ho⟩ := hs hne
+  refine ⟨(o :: ops') ++ [.call f rs.length], by simp [hcode], by simpa using hp, ?_⟩
+  have hne' : (Rep.absArgs rs).toList ≠ [] := by
+    cases rs with
+    | nil => exact (hne rfl).elim
+    | cons r rs => simp [Rep.absArgs, Args.toList]
+  have := GoalReads_call f hr ho hne'
+  simpa [absArgs_toList_length, absArgs_len] using this
+
+theorem compilePred_spec (g : Rep) (c c' : CState) (hw : WF g = true) (h : compilePred g c = some c') :
+    ∃ ops, c'.code = c.code ++ ops ∧ c.vars <+: c'.vars ∧ GoalReads c'.vars ops [goalTerm g] := by
+  have cell : isCell g = true → ∃ ops, c'.code = c.code ++ ops ∧ c.vars <+: c'.vars ∧
+      GoalReads c'.vars ops [goalTerm g] := by
+    intro hc
+    obtain ⟨a, b, h0, h1, hwa, hwb, habs⟩ := cell_args g hw hc
+    rw [compilePred_cell c hc h0 h1] at h
+    cases h
+    have := call_spec "." (.cons a (.cons b .nil)) c (by simp [WFs, hwa, hwb]) (by simp)
+    have hg : goalTerm g = Rep.abs g := by cases g <;> simp [isCell] at hc <;> rfl
+    simpa [compileArgs, compileBodyArg_eq, RepList.length, Rep.absArgs, hg, habs] using this
+  cases g with
+  | var v =>
+    simp only [compilePred, Option.some.injEq] at h
+    subst h
+    have := call_spec "call" (.cons (.var v) .nil) c (by simp [WFs, WF]) (by simp)
+    simpa [compileArgs, compileBodyArg_eq, RepList.length, Rep.absArgs, goalTerm, Rep.abs] using this
+  | atom s =>
+    by_cases hs : s = "!"
+    · subst hs
+      simp only [compilePred, Option.some.injEq] at h
+      subst h
+      exact ⟨[.cut], by simp, by simp, by simpa [goalTerm, Rep.abs] using GoalReads_cut c.vars⟩
+    · simp only [compilePred, Option.some.injEq] at h
+      subst h
+      exact ⟨[.call s 0], by simp, by simp, by simpa [goalTerm, Rep.abs] using GoalReads_call0 c.vars s⟩
+  | compound f args =>
+    simp only [compilePred, Option.some.injEq] at h
+    subst h
+    simp only [WF, Bool.and_eq_true] at hw
+    have hne : args ≠ .nil := by
+      rintro rfl
+      simp [RepList.length] at hw
+    have := call_spec f args c hw.2 hne
+    simpa [compileBodyArgs_eq, goalTerm, Rep.abs] using this
+  | int _ => simp [compilePred] at h
+  | flt _ => simp [compilePred] at h
+  | str _ => simp [compilePred] at h
+  | list _ => exact cell rfl
+  | charList _ => exact cell rfl
+  | codeList _ => exact cell rfl
+  | part _ _ => exact cell rfl
+
+/-! ## bodies, heads, clauses -/
+
+theorem foldl_bind_none (gs : List Rep) :
+    gs.foldl (fun oc g => oc.bind (compilePred g)) (none : Option CState) = none := by
+  induction gs with
+  | nil => rfl
+  | cons g gs ih => simpa using ih
+
+theorem goals_spec : ∀ (gs : List Rep) (c c' : CState), (∀ g ∈ gs, WF g = true) →
+    gs.foldl (fun oc g => oc.bind (compilePred g)) (some c) = some c' →
+    ∃ ops, c'.code = c.code ++ ops ∧ c.vars <+: c'.vars ∧ GoalReads c'.vars ops (gs.map goalTerm)
+  | [], c, c', _, h => by
+    simp only [List.foldl, Option.some.injEq] at h
+    subst h
+    exact ⟨[], by simp, List.prefix_refl _, GoalReads_nil _⟩
+  | g :: gs, c, c', hw, h => by
+    simp only [List.foldl, Option.bind_some] at h
+    cases h1 : compilePred g c with
+    | none => rw [h1, foldl_bind_none] at h; cases h
+    | some c1 =>
+      rw [h1] at h
+      obtain ⟨ops1, hc1, hp1, hr1⟩ := compilePred_spec g c c1 (hw g (by simp)) h1
+      obtain ⟨ops2, hc2, hp2, hr2⟩ := goals_spec gs c1 c' (fun g' hg' => hw g' (by simp [hg'])) h
+      refine ⟨ops1 ++ ops2, by simp [hc2, hc1], List.IsPrefix.trans hp1 hp2, ?_⟩
+      have := GoalReads_append (GoalReads_mono hr1 hp2) hr2
+      simpa using this
+
+theorem compileBody_spec (body : Rep) (c c' : CState) (hw : ∀ g ∈ seqGoals body, WF g = true)
+    (h : compileBody body c = some c') :
+    ∃ ops, c'.code = c.code ++ Op.enter :: ops ∧ c.vars <+: c'.vars ∧
+      GoalReads c'.vars ops ((seqGoals body).map goalTerm) := by
+  obtain ⟨ops, hc, hp, hr⟩ := goals_spec (seqGoals body) (emit c .enter) c' hw h
+  exact ⟨ops, by simp [hc], by simpa using hp, hr⟩
+
+theorem compileHead_spec (head : Rep) (c : CState) (hw : WF head = true) (hc : CallableHead head = true) :
+    ∃ ops ts, (compileHead head c).2.1 = ts.length ∧
+      (compileHead head c).2.2.code = c.code ++ ops ∧ c.vars <+: (compileHead head c).2.2.vars ∧
+      Reads true (compileHead head c).2.2.vars ops ts ∧
+      (if ts.isEmpty then Term.atom (compileHead head c).1
+        else Term.app (compileHead head c).1 (Args.ofList ts)) = Rep.abs head := by
+  cases head with
+  | atom s =>
+    exact ⟨[], [], rfl, by simp [compileHead], by simp [compileHead], Reads_nil _ _,
+      by simp [compileHead, Rep.abs]⟩
+  | compound f args =>
+    simp only [WF, Bool.and_eq_true] at hw
+    obtain ⟨ops, hcode, hp, hr⟩ := compileArgs_spec true args c hw.2
+    refine ⟨ops, (Rep.absArgs args).toList, by simp [compileHead, absArgs_len], ?_, ?_, ?_, ?_⟩
+    · simpa [compileHead, compileHeadArgs_eq] using hcode
+    · simpa [compileHead, compileHeadArgs_eq] using hp
+    · simpa [compileHead, compileHeadArgs_eq] using hr
+    · have hne : (Rep.absArgs args).toList ≠ [] := by
+        cases args with
+        | nil => simp [RepList.length] at hw
+        | cons r rs => simp [Rep.absArgs, Args.toList]
+      simp [compileHead, Rep.abs, hne]
+  | _ => simp [CallableHead] at hc
+
+/-- the clause record `compile` builds from the result of `compileClause` -/
+def mkClause (raw : Term) (r : String × Nat × CState) : Clause :=
+  { name := r.1, arity := r.2.1, raw := raw, vars := r.2.2.vars, code := r.2.2.code }
+
+theorem compileClause_rule (head alt : Rep) (raw : Term) (r : String × Nat × CState)
+    (hw : WF head = true) (hc : CallableHead head = true) (hwa : ∀ g ∈ seqGoals alt, WF g = true)
+    (h : compileClause head (some alt) = some r) :
+    decompile (mkClause raw r) = some (Rep.abs head, (seqGoals alt).map goalTerm) := by
+  obtain ⟨hops, ts, har, hcode, hp, hr, habs⟩ := compileHead_spec head {} hw hc
+  simp only [compileClause] at h
+  cases hb : compileBody alt (compileHead head {}).2.2 with
+  | none => simp [hb] at h
+  | some cb =>
+    obtain ⟨gops, hcode2, hp2, hg⟩ := compileBody_spec alt _ cb hwa hb
+    simp only [hb, Option.map_some, Option.some.injEq] at h
+    subst h
+    have := decompile_rule (compileHead head {}).1 raw cb.vars _ _ hops gops ts _ hr hg hp2
+      (List.prefix_refl _)
+    rw [habs] at this
+    rw [← this]
+    congr 1
+    simp [mkClause, har, hcode2, hcode]
+
+theorem compileClause_fact (head : Rep) (raw : Term) (r : String × Nat × CState)
+    (hw : WF head = true) (hc : CallableHead head = true)
+    (h : compileClause head none = some r) :
+    decompile (mkClause raw r) = some (Rep.abs head, []) := by
+  obtain ⟨hops, ts, har, hcode, hp, hr, habs⟩ := compileHead_spec head {} hw hc
+  simp only [compileClause, Option.some.injEq] at h
+  subst h
+  have := decompile_fact (compileHead head {}).1 raw (compileHead head {}).2.2.vars _ hops ts hr
+    (List.prefix_refl _)
+  rw [habs] at this
+  rw [← this]
+  congr 1
+  simp [mkClause, har, hcode]
+
+/-! ## well-formedness of the goals the iterators deliver -/
+
+theorem wf_seqGoals (b : Rep) (hw : WF b = true) : ∀ g ∈ seqGoals b, WF g = true := by
+  fun_induction seqGoals b with
+  | case1 a b ih =>
+    intro g hg
+    simp only [WF, WFs, Bool.and_eq_true] at hw
+    rcases List.mem_cons.1 hg with rfl | hg
+    · exact hw.2.1
+    · exact ih hw.2.2.1 g hg
+  | case2 g hne =>
+    intro g' hg'
+    rw [List.mem_singleton.1 hg']
+    exact hw
+
+theorem wf_altBodies (b : Rep) (hw : WF b = true) : ∀ a ∈ altBodies b, WF a = true := by
+  fun_induction altBodies b with
+  | case1 b x y =>
+    intro g hg
+    rw [List.mem_singleton.1 hg]
+    exact hw
+  | case2 a b hne ih =>
+    intro g hg
+    simp only [WF, WFs, Bool.and_eq_true] at hw
+    rcases List.mem_cons.1 hg with rfl | hg
+    · exact hw.2.1
+    · exact ih hw.2.2.1 g hg
+  | case3 g hne =>
+    intro g' hg'
+    rw [List.mem_singleton.1 hg']
+    exact hw
+
+/-! ## the fold of `compile` over the alternatives -/
+
+/-- the step function of `compile`'s fold -/
+def altStep (head : Rep) (raw err : Term) (acc : Except Term (List Clause)) (alt : Rep) :
+    Except Term (List Clause) :=
+  match acc with
+  | .error e => .error e
+  | .ok cs =>
+    match compileClause head (some alt) with
+    | none => .error err
+    | some (f, n, c) => .ok (cs ++ [{ name := f, arity := n, raw := raw, vars := c.vars, code := c.code }])
+
+theorem compile_rule_eq (head body : Rep) :
+    compile (.compound ":-" (.cons head (.cons body .nil))) =
+      (altBodies body).foldl
+        (altStep head (Rep.abs (.compound ":-" (.cons head (.cons body .nil))))
+          (typeErr "callable" (Rep.abs body))) (.ok []) := by
+  simp only [compile]
+  rfl
+
+theorem altStep_error (head : Rep) (raw err e : Term) (alts : List Rep) :
+    alts.foldl (altStep head raw err) (.error e) = .error e := by
+  induction alts with
+  | nil => rfl
+  | cons a alts ih => simpa [altStep] using ih
+
+/-- dichotomy: either every alternative compiles and the result lists their clauses in order, or
+    some alternative does not compile and the result is an error -/
+theorem fold_spec (head : Rep) (raw err : Term) : ∀ (alts : List Rep) (cs0 : List Clause),
+    (∃ cs', alts.foldl (altStep head raw err) (.ok cs0) = .ok (cs0 ++ cs') ∧
+      cs'.length = alts.length ∧
+      (∀ alt ∈ alts, (compileClause head (some alt)).isSome = true) ∧
+      ∀ (i : Nat) (c : Clause) (alt : Rep), cs'[i]? = some c → alts[i]? = some alt →
+        ∃ r, compileClause head (some alt) = some r ∧ c = mkClause raw r) ∨
+    (alts.foldl (altStep head raw err) (.ok cs0) = .error err ∧
+      ∃ alt ∈ alts, compileClause head (some alt) = none)
+  | [], cs0 => Or.inl ⟨[], by simp, rfl, by simp, by simp⟩
+  | a :: alts, cs0 => by
+    cases h : compileClause head (some a) with
+    | none =>
+      refine Or.inr ⟨?_, a, by simp, h⟩
+      simp only [List.foldl, altStep, h]
+      exact altStep_error _ _ _ _ _
+    | some r =>
+      have hs : altStep head raw err (.ok cs0) a = .ok (cs0 ++ [mkClause raw r]) := by
+        obtain ⟨f, n, c⟩ := r
+        simp only [altStep, h]
+        rfl
+      rcases fold_spec head raw err alts (cs0 ++ [mkClause raw r]) with
+        ⟨cs', h1, h2, h3, h4⟩ | ⟨h1, alt, hm, hn⟩
+      · refine Or.inl ⟨mkClause raw r :: cs', ?_, by simp [h2], ?_, ?_⟩
+        · simp only [List.foldl, hs, h1]
+          simp
+        · intro alt hm
+          rcases List.mem_cons.1 hm with rfl | hm
+          · simp [h]
+          · exact h3 alt hm
+        · intro i c alt hc ha
+          cases i with
+          | zero =>
+            simp only [List.getElem?_cons_zero, Option.some.injEq] at hc ha
+            subst hc; subst ha
+            exact ⟨r, h, rfl⟩
+          | succ i =>
+            simp only [List.getElem?_cons_succ] at hc ha
+            exact h4 i c alt hc ha
+      · refine Or.inr ⟨?_, alt, by simp [hm], hn⟩
+        simp only [List.foldl, hs, h1]
+
+/-! ## the three theorems -/
+
+theorem rule_statement : RuleStatement := by
+  intro head body cs hwh hwb hch hcomp
+  rw [compile_rule_eq] at hcomp
+  rcases fold_spec head (Rep.abs (.compound ":-" (.cons head (.cons body .nil))))
+      (typeErr "callable" (Rep.abs body)) (altBodies body) [] with
+    ⟨cs', h1, h2, _, h4⟩ | ⟨h1, _⟩
+  · rw [h1] at hcomp
+    simp only [List.nil_append, Except.ok.injEq] at hcomp
+    subst hcomp
+    refine ⟨h2, ?_⟩
+    intro i c alt hc ha
+    obtain ⟨r, hr, rfl⟩ := h4 i c alt hc ha
+    have hm : alt ∈ altBodies body := List.mem_of_getElem? ha
+    exact ⟨compileClause_rule head alt _ r hwh hch (wf_seqGoals alt (wf_altBodies body hwb alt hm)) hr, rfl⟩
+  · rw [h1] at hcomp
+    cases hcomp
+
+theorem fact_statement : FactStatement := by
+  intro t cs hw hc hne hcomp
+  have hco : compile t =
+      match compileClause t none with
+      | none => .error (typeErr "callable" (Rep.abs t))
+      | some (f, n, c) => .ok [{ name := f, arity := n, raw := Rep.abs t, vars := c.vars, code := c.code }] := by
+    unfold compile
+    split
+    · exact (hne _ _ rfl).elim
+    · rfl
+  rw [hco] at hcomp
+  cases h : compileClause t none with
+  | none => simp [h] at hcomp
+  | some r =>
+    obtain ⟨f, n, c⟩ := r
+    simp only [h, Except.ok.injEq] at hcomp
+    subst hcomp
+    exact ⟨_, rfl, compileClause_fact t (Rep.abs t) (f, n, c) hw hc h, rfl⟩
+
+/-! ## errors -/
+
+theorem compilePred_none_iff (g : Rep) (c : CState) (hw : WF g = true) :
+    compilePred g c = none ↔ CallableGoal g = false := by
+  have cell : isCell g = true → (compilePred g c = none ↔ CallableGoal g = false) := by
+    intro hc
+    obtain ⟨a, b, h0, h1, _, _, _⟩ := cell_args g hw hc
+    rw [compilePred_cell c hc h0 h1]
+    cases g <;> simp [isCell] at hc <;> simp [CallableGoal]
+  cases g with
+  | var v => simp [compilePred, CallableGoal]
+  | atom s =>
+    by_cases hs : s = "!"
+    · subst hs; simp [compilePred, CallableGoal]
+    · simp [compilePred, CallableGoal]
+  | compound f args => simp [compilePred, CallableGoal]
+  | int _ => simp [compilePred, CallableGoal]
+  | flt _ => simp [compilePred, CallableGoal]
+  | str _ => simp [compilePred, CallableGoal]
+  | list _ => exact cell rfl
+  | charList _ => exact cell rfl
+  | codeList _ => exact cell rfl
+  | part _ _ => exact cell rfl
+
+theorem goals_none_iff : ∀ (gs : List Rep) (c : CState), (∀ g ∈ gs, WF g = true) →
+    (gs.foldl (fun oc g => oc.bind (compilePred g)) (some c) = none ↔
+      ∃ g ∈ gs, CallableGoal g = false)
+  | [], c, _ => by simp
+  | g :: gs, c, hw => by
+    simp only [List.foldl, Option.bind_some]
+    cases h1 : compilePred g c with
+    | none =>
+      rw [foldl_bind_none]
+      have := (compilePred_none_iff g c (hw g (by simp))).1 h1
+      exact ⟨fun _ => ⟨g, by simp, this⟩, fun _ => rfl⟩
+    | some c1 =>
+      have hg : CallableGoal g ≠ false := fun hf => by
+        have := (compilePred_none_iff g c (hw g (by simp))).2 hf
+        rw [h1] at this; cases this
+      rw [goals_none_iff gs c1 (fun g' hg' => hw g' (by simp [hg']))]
+      constructor
+      · rintro ⟨g', hm, hf⟩
+        exact ⟨g', by simp [hm], hf⟩
+      · rintro ⟨g', hm, hf⟩
+        rcases List.mem_cons.1 hm with rfl | hm
+        · exact (hg hf).elim
+        · exact ⟨g', hm, hf⟩
+
+theorem compileClause_none_iff (head alt : Rep) (hw : ∀ g ∈ seqGoals alt, WF g = true) :
+    compileClause head (some alt) = none ↔ ∃ g ∈ seqGoals alt, CallableGoal g = false := by
+  rw [← goals_none_iff (seqGoals alt) (emit (compileHead head {}).2.2 .enter) hw]
+  simp only [compileClause, compileBody, Option.map_eq_none_iff]
+
+theorem error_statement : ErrorStatement := by
+  intro head body _ hwb _
+  rw [compile_rule_eq]
+  have key : ∀ alt ∈ altBodies body,
+      (compileClause head (some alt) = none ↔ ∃ g ∈ seqGoals alt, CallableGoal g = false) :=
+    fun alt hm => compileClause_none_iff head alt (wf_seqGoals alt (wf_altBodies body hwb alt hm))
+  rcases fold_spec head (Rep.abs (.compound ":-" (.cons head (.cons body .nil))))
+      (typeErr "callable" (Rep.abs body)) (altBodies body) [] with
+    ⟨cs', h1, _, h3, _⟩ | ⟨h1, alt, hm, hn⟩
+  · rw [h1]
+    constructor
+    · rintro ⟨e, he⟩; cases he
+    · rintro ⟨alt, hm, hg⟩
+      have := (key alt hm).2 hg
+      have h := h3 alt hm
+      rw [this] at h; cases h
+  · rw [h1]
+    exact ⟨fun _ => ⟨alt, hm, (key alt hm).1 hn⟩, fun _ => ⟨_, rfl⟩⟩
 
 end PrologVerif.DecompileCompile
